@@ -32,7 +32,7 @@ EXHAUSTIVE = {
 FLOORS = {"quick": {k: 1 for k in [
     "updates_fed", "sync_checks", "truncations_rejected", "exact_minimum_accepted", "same_key_updates",
     "same_key_no_hashes", "deletions_fed", "tracked_deleted", "branch_point_0", "branch_point_last",
-    "branch_points_distinct", "ks_1", "ks_2", "ks_3", "ks_8", "ks_32"]}}
+    "branch_points_distinct", "ks_1", "ks_2", "ks_3", "ks_8", "ks_32", "stream_from_a_reopened_tree"]}}
 FLOORS["thorough"] = dict(FLOORS["quick"])
 
 DEFAULTS = [b"", b"", b"\x00" * 32, b"dflt"]
@@ -82,7 +82,8 @@ def gen_case(rnd, tier, ks=None):
             ops.append(["del", k.to_bytes(ks, "big").hex()])
     return {"ks": ks, "default": default.hex(), "tracked": tracked.to_bytes(ks, "big").hex(),
             "initial": (bytes([rnd.randrange(1, 256)]) * 3).hex(), "ops": ops, "pseed": rnd.randrange(1 << 30),
-            "full_lists": rnd.random() < 0.3, "observe_p": rnd.choice([1.0, 1.0, 0.5, 0.2])}
+            "full_lists": rnd.random() < 0.3, "observe_p": rnd.choice([1.0, 1.0, 0.5, 0.2]),
+            "reopen": rnd.random() < 0.25}
 
 
 def run_case(case, ctx):
@@ -99,6 +100,10 @@ def run_case(case, ctx):
         v0 = unhx(case["initial"])
         cut(smt.set, tb, v0)
         m[tracked] = v0
+    if case.get("reopen"):
+        # the tree that produces the stream is one re-opened on the database of the first
+        smt = cut(SparseMerkleTree.from_db, smt.db, smt.root_hash, key_size=ks, default=default)
+        ctx.count("stream_from_a_reopened_tree")
     proof = cut(SparseMerkleProof, tb, cut(smt.get, tb), cut(smt.branch, tb))
     ctx.count("ks_%d" % ks)
     bps = []
